@@ -8,6 +8,7 @@ command storms from one and two controller threads under seeded line-level delay
 (sys.monitoring), judged by invariants that hold under every linearisation.
 """
 from vlib.simharness import num
+import math
 import os
 import sys
 import threading
@@ -106,6 +107,9 @@ def gen_case(rng, tier, i):
         clock = ["float", "int", "duration"][i % 3]
         w = [3, 4, 4, 1, 2, 2, 1, 1]
         seq = ["initialize"] + rng.choices(CMDS, weights=w, k=rng.randint(4, 8))
+        for _ in range(rng.choice([0, 1, 1, 2])):
+            # a bound that is not a time: refused like any other illegal command, in every state
+            seq.insert(rng.randint(0, len(seq)), rng.choice(["run_up_to:nan", "run_up_to_including:nan"]))
         return {"fam": "seq", "clock": clock, "seq": seq}
     i -= nrand
     if i < ngate:
@@ -189,11 +193,16 @@ def _run_seq(case, ctx):
             before = h.snapshot()
             bstate = _abstract(before)
             nfirst, hfirst, tfirst = len(h.nlog), len(h.hlog), len(h.timeline)
-            exp = pref.apply(c)
-            if c in ("run_up_to", "run_up_to_including"):
-                out = h.cmd(c, mid)
+            if c.endswith(":nan"):
+                exp = {"outcome": "refused", "seg": [], "notes": [], "state": pref.state}
+                out = h.cmd(c[:-4], math.nan)
+                ctx.count("not-a-time_bounds_issued")
             else:
-                out = h.cmd(c)
+                exp = pref.apply(c)
+                if c in ("run_up_to", "run_up_to_including"):
+                    out = h.cmd(c, mid)
+                else:
+                    out = h.cmd(c)
             if out == "ok" and c in ("start", "run_up_to", "run_up_to_including") and exp["outcome"] == "ok":
                 # an accepted start returns once the run thread has taken over: STARTING is a state inside the call
                 ctx.count("accepted_starts_observed_at_return")
